@@ -4,6 +4,7 @@ import FastgoModel.Container.Digest
 import FastgoModel.Container.Members
 import FastgoModel.Proofs.WriterWrap
 import FastgoModel.Proofs.StreamFrame
+import FastgoModel.Proofs.RoundTrip
 /-!
 # C06 — gzip and zlib containers round-trip and interoperate
 
@@ -97,6 +98,30 @@ theorem C06_zlib_stream_reads_back_spec (mode : Spec.Mode) (level : Int) (body r
       readZlib (specInflater mode) (emitZHeader level none ++ (body ++ (emitZTrailer payload ++ rest))) = some (payload, rest) :=
   zlib_stream_reads_back_spec mode level body rest hc
 
+/-- **gzip round trip inside the model, no inflater hypothesis**: for ANY accepted history of Write / Flush / Reset calls on
+    the gzip Writer model (inner Writer under its stream contract), Close succeeds and the bytes on the destination, followed
+    by ANY bytes, are read back by the gzip Reader model over the SPECIFICATION inflater as exactly: the header fields in
+    effect, the data written, and those following bytes untouched. -/
+theorem C06_gzip_roundtrip_model {ι : Type} (O : CWriter.InnerOps ι) {mode : Mode} (C : CWriter.InnerStream O mode)
+    (i : ι) (level : Int) (h : GzHeader) (hf : C.Fresh i) (hh : (O.dst i).Healthy) (hg : (O.dst i).got = [])
+    (ops : List Writer.Op) (ha : CWriter.allAccepted ops (CWriter.gRun O (CWriter.GW.init i level h) ops).2)
+    (hwf : (CWriter.hdrOf h ops).WF) (after : List UInt8) :
+    (CWriter.gClose O (CWriter.gRun O (CWriter.GW.init i level h) ops).1).2.err = none ∧
+    readOneMember (specInflater mode)
+        ((O.dst (CWriter.gClose O (CWriter.gRun O (CWriter.GW.init i level h) ops).1).1.inner).bytes ++ after) =
+      some (CWriter.hdrOf h ops, CWriter.dataOf [] ops, after) :=
+  CWriter.gzip_roundtrip_model O C i level h hf hh hg ops ha hwf after
+
+/-- the zlib counterpart -/
+theorem C06_zlib_roundtrip_model {ι : Type} (O : CWriter.InnerOps ι) {mode : Mode} (C : CWriter.InnerStream O mode)
+    (i : ι) (level : Int) (hf : C.Fresh i) (hh : (O.dst i).Healthy) (hg : (O.dst i).got = [])
+    (ops : List Writer.Op) (ha : CWriter.allAccepted ops (CWriter.zRun O (CWriter.ZW.init i level) ops).2) (after : List UInt8) :
+    (CWriter.zClose O (CWriter.zRun O (CWriter.ZW.init i level) ops).1).2.err = none ∧
+    readZlib (specInflater mode)
+        ((O.dst (CWriter.zClose O (CWriter.zRun O (CWriter.ZW.init i level) ops).1).1.inner).bytes ++ after) =
+      some (CWriter.dataOf [] ops, after) :=
+  CWriter.zlib_roundtrip_model O C i level hf hh hg ops ha after
+
 end Fastgo.Container
 
 #print axioms Fastgo.Container.C06_gzip_header_roundtrip
@@ -107,5 +132,7 @@ end Fastgo.Container
 #print axioms Fastgo.Container.C06_gzip_member_reads_back
 #print axioms Fastgo.Container.C06_gzip_member_reads_back_spec
 #print axioms Fastgo.Container.C06_zlib_stream_reads_back_spec
+#print axioms Fastgo.Container.C06_gzip_roundtrip_model
+#print axioms Fastgo.Container.C06_zlib_roundtrip_model
 #print axioms Fastgo.Container.C06_gzip_writer_emits_member
 #print axioms Fastgo.Container.C06_zlib_writer_emits_stream
